@@ -108,7 +108,7 @@ fn main() {
     ctx.prop_split("generated", "reader-case", ctx.n(6_000, 200_000), ctx.parts(), case(10).boxed(), run_case);
     ctx.prop("generated-short", "reader-case", ctx.n(6_000, 100_000), case(3), run_case);
     if buf >= 1024 && buf <= (1 << 22) {
-        ctx.prop_cfg("long-inputs-at-buffer-boundary", "reader-case", ctx.n(150, 3_000), 200, long_case(buf), run_case);
+        ctx.prop_cfg("long-inputs-at-buffer-boundary", "reader-case", ctx.n(500, 8_000), 200, long_case(buf), run_case);
     } else {
         ctx.class("long-input-class-skipped-buffer-size-unusual", 1);
     }
